@@ -259,9 +259,13 @@ def pv_canon(w):
     return pv_from_model(w)
 
 
+def float_cls(f):
+    return "nan" if math.isnan(f) else ("inf" if math.isinf(f) else "finite")
+
+
 def _float_obs(f):
     integral = int(f) if (math.isfinite(f) and f.is_integer()) else None
-    return repr(f), integral
+    return repr(f), integral, float_cls(f)
 
 
 def jv_wire(j):
@@ -272,8 +276,8 @@ def jv_wire(j):
     if isinstance(j, int):
         return j
     if isinstance(j, float):
-        r, integral = _float_obs(j)
-        return {"f": r, "int": integral}
+        r, integral, cls = _float_obs(j)
+        return {"f": r, "int": integral, "cls": cls}
     if isinstance(j, str):
         try:
             i10 = int(j, 10)
@@ -282,8 +286,8 @@ def jv_wire(j):
         flt = None
         try:
             f = float(j)
-            r, integral = _float_obs(f)
-            flt = {"r": r, "int": integral}
+            r, integral, cls = _float_obs(f)
+            flt = {"r": r, "int": integral, "cls": cls}
         except ValueError:
             pass
         return {"s": j, "i10": i10, "flt": flt}
@@ -302,6 +306,8 @@ def lit_wire(l):
         return {"k": "list", "v": [lit_wire(x) for x in l[1]]}
     if k == "obj":
         return {"k": "obj", "v": [[n, lit_wire(x)] for n, x in l[1]]}
+    if k == "float":
+        return {"k": k, "v": l[1], "cls": float_cls(float(l[1]))}     # `1e999` is +inf for Python's float()
     return {"k": k, "v": l[1]}
 
 
@@ -386,7 +392,10 @@ def render_lit(l):
 
 
 def float_literal_text(f):
-    """GraphQL FloatValue spelling of a finite Python float (its repr is one: `1.5`, `1e+16`, `-0.0`)."""
+    """GraphQL FloatValue spelling of a Python float (finite: its repr, `1.5`, `1e+16`, `-0.0`; the infinities: an
+    overflowing literal; NaN has no spelling, any non-finite literal stands in for it)."""
+    if not math.isfinite(f):
+        return "-1e999" if f < 0 else "1e999"
     r = repr(f)
     if "e" in r:                       # py_gql's lexer refuses a leading zero in the exponent (`1e-07`): spell it `1e-7`
         m, e = r.split("e")
@@ -634,17 +643,19 @@ def leaf_natural(reg, d, rng):
 def leaf_wrong(reg, d):
     k = d["kind"]
     if k == "int":
-        return [True, False, 1.0, 1.5, -0.0, 2147483648.0, "12", " 7 ", "1e3", "1.5", "abc", "", "1_0", [1], [], {}, {"a": 1}]
+        return [True, False, 1.0, 1.5, -0.0, 2147483648.0, "12", " 7 ", "1e3", "1.5", "abc", "", "1_0", [1], [], {}, {"a": 1},
+                float("inf"), float("nan"), "inf", "nan", "1e999"]
     if k == "float":
-        return [True, "1.5", "1e3", "inf", "x", "", [1.5], [], {}, {"a": 1}]
+        return [float("inf"), float("-inf"), float("nan"), "inf", "-inf", "nan", "Infinity", "1e999", True, "1.5", "1e3", "x", "",
+                [1.5], [], {}, {"a": 1}]
     if k == "string":
-        return [1, -5, 1.5, True, False, [1], ["a"], [], {}, {"a": "b"}]
+        return [1, -5, 1.5, True, False, [1], ["a"], [], {}, {"a": "b"}, float("inf"), float("nan")]
     if k == "boolean":
-        return [0, 1, 2, "false", "", "x", 0.0, 1.5, [1], [], [False], {}, {"a": True}]
+        return [0, 1, 2, "false", "", "x", 0.0, 1.5, [1], [], [False], {}, {"a": True}, float("nan"), float("-inf")]
     if k == "id":
         return [1.5, True, [1], ["a"], {}, {"id": 1}]
     if k == "custom":
-        return [1, 1.5, [1, "a"], {"k": [True]}, {}]
+        return [1, 1.5, [1, "a"], {"k": [True]}, {}, float("inf")]
     if k == "enum":
         n0 = d["values"][0][0]
         return [1, True, 1.5, [n0, n0], {}, {n0: 1}, "not a name", "true"]
